@@ -8,6 +8,7 @@ package main
 
 import (
 	"bytes"
+	"encoding/json"
 	"fmt"
 	"os"
 	"os/exec"
@@ -24,7 +25,50 @@ type Mutant struct {
 	Old  string
 	New  string
 	Rule string // rule id expected to fire (substring of the violation key); "" = any
+	// File "patch:<path>" names a unified diff (paths a/v8/…) applied instead of the Old→New edit:
+	// the seeded changes kept under /verif/seeded (written by fresh sub-agents that saw only
+	// the property text), replayed as a regression corpus.
 }
+
+// patchOf: a Mutant whose File is "patch:<path>" applies that diff.
+func (m Mutant) patch() string { return strings.TrimPrefix(m.File, "patch:") }
+func (m Mutant) isPatch() bool { return strings.HasPrefix(m.File, "patch:") }
+
+// seededMutants lists /verif/seeded/<prop>/<n>/patch.diff for the properties whose check is
+// recorded as detecting it (meta.json "detected_by").
+func seededMutants(prop string) []Mutant {
+	self, err := os.Executable()
+	if err != nil {
+		return nil
+	}
+	root := filepath.Join(filepath.Dir(filepath.Dir(self)), "seeded")
+	metas, _ := filepath.Glob(filepath.Join(root, "*", "*", "meta.json"))
+	sort.Strings(metas)
+	var out []Mutant
+	for _, mp := range metas {
+		raw, err := os.ReadFile(mp)
+		if err != nil {
+			continue
+		}
+		var meta struct {
+			Property   string   `json:"property"`
+			DetectedBy []string `json:"detected_by"`
+		}
+		if json.Unmarshal(raw, &meta) != nil {
+			continue
+		}
+		d := filepath.Dir(mp)
+		for _, by := range meta.DetectedBy {
+			p, rule, _ := strings.Cut(by, ".")
+			if prop != "" && p != prop {
+				continue
+			}
+			out = append(out, Mutant{Prop: p, Name: "seeded-" + meta.Property + "-" + filepath.Base(d), Rule: strings.TrimSuffix(p+"."+rule, "."), File: "patch:" + filepath.Join(d, "patch.diff")})
+		}
+	}
+	return out
+}
+
 
 var mutantTable []Mutant
 
@@ -39,14 +83,18 @@ func scratchBase() string {
 
 func runOneMutant(m Mutant, repo string, self string) MutantResult {
 	res := MutantResult{Name: m.Name, Expected: m.Rule}
-	src, err := os.ReadFile(filepath.Join(repo, m.File))
-	if err != nil {
-		res.Status, res.Detail = "skipped", "file missing"
-		return res
-	}
-	if n := strings.Count(string(src), m.Old); n != 1 {
-		res.Status, res.Detail = "skipped", fmt.Sprintf("old text occurs %d times in the tree under test", n)
-		return res
+	var src []byte
+	var err error
+	if !m.isPatch() {
+		src, err = os.ReadFile(filepath.Join(repo, m.File))
+		if err != nil {
+			res.Status, res.Detail = "skipped", "file missing"
+			return res
+		}
+		if n := strings.Count(string(src), m.Old); n != 1 {
+			res.Status, res.Detail = "skipped", fmt.Sprintf("old text occurs %d times in the tree under test", n)
+			return res
+		}
 	}
 	dir, err := os.MkdirTemp(scratchBase(), "gokrb5-mutant-")
 	if err != nil {
@@ -59,10 +107,19 @@ func runOneMutant(m Mutant, repo string, self string) MutantResult {
 		res.Status, res.Detail = "skipped", "rsync: "+string(out)
 		return res
 	}
-	mut := strings.Replace(string(src), m.Old, m.New, 1)
-	if err := os.WriteFile(filepath.Join(dir, m.File), []byte(mut), 0o644); err != nil {
-		res.Status, res.Detail = "skipped", err.Error()
-		return res
+	if m.isPatch() {
+		pc := exec.Command("patch", "-p2", "-s", "--no-backup-if-mismatch", "-i", m.patch())
+		pc.Dir = dir
+		if out, err := pc.CombinedOutput(); err != nil {
+			res.Status, res.Detail = "skipped", "patch does not apply to the tree under test: "+trunc(string(out), 200)
+			return res
+		}
+	} else {
+		mut := strings.Replace(string(src), m.Old, m.New, 1)
+		if err := os.WriteFile(filepath.Join(dir, m.File), []byte(mut), 0o644); err != nil {
+			res.Status, res.Detail = "skipped", err.Error()
+			return res
+		}
 	}
 	env := append(os.Environ(), "GOFLAGS=-mod=mod", "GOPROXY=off", "GOSUMDB=off", "GOTOOLCHAIN=local", "GOWORK=off")
 	bld := exec.Command("go", "build", "./...")
@@ -116,6 +173,7 @@ func runMutants(prop, repo string) []MutantResult {
 			ms = append(ms, m)
 		}
 	}
+	ms = append(ms, seededMutants(prop)...)
 	results := make([]MutantResult, len(ms))
 	sem := make(chan struct{}, 6)
 	var wg sync.WaitGroup
